@@ -46,6 +46,7 @@ type serverHandshakeState struct {
 	sessionTicketOK bool
 	useRC4          uint8
 	sessionState    *sessionState
+	nextProtos      []string
 	finishedHash    finishedHash
 	masterSecret    []byte
 	certsFromClient [][]byte
@@ -267,6 +268,7 @@ Curves:
 	if rule != nil {
 		nextProtos = rule.NextProtos.Get(c)
 	}
+	hs.nextProtos = nextProtos
 
 	if len(hs.clientHello.alpnProtocols) > 0 {
 		if selectedProto, fallback := mutualProtocol(hs.clientHello.alpnProtocols, nextProtos); !fallback {
@@ -440,8 +442,16 @@ func (hs *serverHandshakeState) validateHttp2Accepted() {
 	c := hs.c
 	if hs.hello.alpnProtocol == "h2" {
 		if !checkCipherSuiteHttp2Accepted(hs.suite.id) || c.vers < VersionTLS12 {
-			hs.hello.alpnProtocol = "http/1.1"
-			c.clientProtocol = "http/1.1"
+			// h2 can not be used on this connection: select again among the
+			// other protocols of the server. If the client offered none of
+			// them, no ALPN extension is sent (as for ALPN without match).
+			hs.hello.alpnProtocol = ""
+			c.clientProtocol = ""
+			nextProtos := checkAndRemoveH2(hs.nextProtos)
+			if selectedProto, fallback := mutualProtocol(hs.clientHello.alpnProtocols, nextProtos); !fallback {
+				hs.hello.alpnProtocol = selectedProto
+				c.clientProtocol = selectedProto
+			}
 		}
 	}
 }
